@@ -1745,7 +1745,8 @@ class FileRaceStore(RaceStore):
                 logging.getLogger(__name__).exception("Could not load race file [%s] (incompatible format?) Skipping...", result)
 
         if track:
-            races = filter(lambda r: r.track == track, races)
+            # we iterate over the result twice below if a benchmark name has been provided
+            races = list(filter(lambda r: r.track == track, races))
         if name:
             filtered_on_name = filter(lambda r: r.user_tags.get("name") == name, races)
             filtered_on_benchmark_name = filter(lambda r: r.user_tags.get("benchmark-name") == name, races)
